@@ -262,5 +262,46 @@ func VrfC09Alerts() {
 			vrf_assert(vrf_implies(!expired2, !gone2), "C09.alert.fresh-kept")
 		}
 	}
+	// the peer comes back and fails again: a new outage is reported once more,
+	// under every name (what was counted for the previous outage is forgotten)
+	if checks >= 2 && vrf_param("second_outage") == 1 {
+		st.Add(&api.Metric{Name: "ping", Peer: vrfPeers[0], Valid: true, Expire: now - 10*vrfSecond, Value: "2"})
+		if second {
+			st.Add(&api.Metric{Name: "freespace", Peer: vrfPeers[0], Valid: true, Expire: now - 10*vrfSecond, Value: "2"})
+		}
+		again, again2 := 0, 0
+		for c := 0; c < checks; c++ {
+			var err error
+			if useAll {
+				err = mc.CheckAll()
+			} else {
+				err = mc.CheckPeers([]peer.ID{vrfPeers[0], vrfPeers[1]})
+			}
+			vrf_assert(err == nil, "C09.alert.no-error")
+			for {
+				got := false
+				select {
+				case a := <-mc.alertCh:
+					got = true
+					if a.Peer == vrfPeers[0] && a.Name == "freespace" {
+						again2++
+					} else if a.Peer == vrfPeers[0] {
+						again++
+					} else {
+						otherAlerts++
+					}
+				default:
+				}
+				if !got {
+					break
+				}
+			}
+		}
+		vrf_assert(otherAlerts == 0, "C09.alert.healthy-never")
+		vrf_assert(again == 1, "C09.alert.next-outage-reported-once")
+		if second {
+			vrf_assert(again2 == 1, "C09.alert.next-outage-reported-once")
+		}
+	}
 	vrf_reach("C09.alert.end")
 }
